@@ -5,6 +5,7 @@ import (
 	"errors"
 	"fmt"
 	"io/ioutil"
+	"math"
 	"net/url"
 	"time"
 
@@ -177,11 +178,17 @@ func decodeSignedSubset(signed []byte) (*SignedSubset, error) {
 			if err != nil {
 				return nil, err
 			}
+			if date > math.MaxInt64 {
+				return nil, fmt.Errorf("signature: date %d is out of range", date)
+			}
 			result.Date = time.Unix(int64(date), 0)
 		case "expires":
 			expires, err := dec.DecodeUint()
 			if err != nil {
 				return nil, err
+			}
+			if expires > math.MaxInt64 {
+				return nil, fmt.Errorf("signature: expires %d is out of range", expires)
 			}
 			result.Expires = time.Unix(int64(expires), 0)
 		case "subset-hashes":
